@@ -19,6 +19,20 @@ def hpoa_text(k):
     return '\n'.join(rows) + '\n'
 
 
+def hpoa_rich(k):
+    """an HPOA file whose parsed frequencies depend on the loader configuration (cohort size, salvaging of negated
+    frequencies): frequency terms, percentages, negated lines, n/m ratios, empty frequency"""
+    rows = ['#description: "test"', '#version: 2024-02-0%d' % k,
+            'database_id\tdisease_name\tqualifier\thpo_id\treference\tevidence\tonset\tfrequency\tsex\tmodifier\taspect\tbiocuration']
+    freqs = ['HP:0040281', '90%', '3/7', '', 'HP:0040283', '12.5%', '0/5', 'HP:0040282']
+    for j in range(k + 2):
+        for i in range(3):
+            f = freqs[(j * 3 + i + k) % len(freqs)]
+            neg = 'NOT' if (i + j + k) % 3 == 0 else ''
+            rows.append(f'OMIM:10000{j}\tDisease {j}\t{neg}\tHP:000000{i + 2}\tPMID:{j + 1}\tPCS\t\t{f}\t\t\tP\tHPO:x[2020-01-01]')
+    return '\n'.join(rows) + '\n'
+
+
 def chained_docs(rng, prefix):
     """documents A and B where the subject of A's LAST is_a edge is the subject of B's FIRST is_a edge, at different
     positions of the two sorted node arrays (state kept by a shared graph factory between loads shows)"""
